@@ -27,8 +27,8 @@ CLAIMED = {
    note="The verifier is sequential: 'no interleaving breaks matching and no data race' follows from these obligations by the standard argument that critical sections of one mutex are totally ordered and that the two APIs' frames are otherwise disjoint (DESIGN 2.4) - that last step is stated, not machine-checked. Map keys of type float64 are compared by bit pattern. Trusted: sync.Mutex model, govc, go/ssa, solvers.",
    design="7/C04"),
  "C01": dict(
-   text="Contracts on the real chunk writer helpers (type-0 and type-3 header generators against RTMP 5.3.1 incl. extended timestamps) and on the chunk reader: one payload step consumes exactly min(remaining, input chunk size) bytes and appends them (prefix preserved), a message is returned iff complete and never truncated, ReadMessage's loop is verified against a quantified invariant over the chunk-stream table (per-stream consistency and separation), and the peer's Set Chunk Size takes effect on the reader.",
-   note="PARTIAL: WriteMessage is verified for termination, transport-error propagation, exact output of single-chunk messages and own Set Chunk Size; the byte-exact multi-chunk layout and the writer/reader step-compatibility lemma are not under contract; the whole-session induction is a paper argument over the per-step contracts; the handshake is not covered. Trusted: ghost-stream contracts of io.ReadFull/binary.Read/bufio, govc, go/ssa, solvers.",
+   text="Contracts on the real chunk writer helpers (type-0 and type-3 header generators against RTMP 5.3.1 incl. extended timestamps) and on the chunk reader: one payload step consumes exactly min(remaining, input chunk size) bytes and appends them (prefix preserved), a message is returned iff complete and never truncated, ReadMessage's loop is verified against a quantified invariant over the chunk-stream table (per-stream consistency and separation), and the peer's Set Chunk Size takes effect on the reader. Writer/reader agreement across chunk boundaries: BOUNDED lemmas run the real WriteMessage and then the real ReadMessage on exactly the bytes the writer produced (the reader's ghost input is the writer's ghost output) for a 9-byte message over chunk size 4 (type-0 + two type-3 chunks), with and without extended timestamps (the 32-bit field after every type-3 header), for a payload that is an exact multiple of the chunk size, and for one byte; arbitrary payload bytes, stream id and timestamp; type, stream id, timestamp and payload come back identical and the reader stops exactly at the end of the output.",
+   note="PARTIAL: WriteMessage is verified for termination, transport-error propagation, exact output of single-chunk messages and own Set Chunk Size; the byte-exact multi-chunk layout for arbitrary sizes is not under an unbounded contract (the round-trip lemmas are bounded stand-ins at fixed sizes); the whole-session induction is a paper argument over the per-step contracts; the handshake is not covered. Trusted: ghost-stream contracts of io.ReadFull/binary.Read/bufio, govc, go/ssa, solvers.",
    design="7/C01"),
  "C02": dict(
    text="readBasicHeader against the three basic-header forms (all first bytes, exact consumption), readMessageHeader against RTMP 5.3.1.2/5.3.1.3: mandatory rejections (type 0 inside a message, length change, fresh stream not starting with type 0 except the librtmp ping), acceptance otherwise, field replacement/inheritance, timestamp rules for types 0-3 reduced to 31 bits, extended timestamp of type 0; frame conditions (only the addressed chunk stream's state and message change) and preservation of the reader-state invariant across ReadMessage.",
